@@ -261,8 +261,17 @@ pub fn append_only_violations_in(
                 let blob = is_blob(&ev.path);
                 match &ev.op {
                     IoOp::Write {
-                        offset, len_before, ..
+                        offset, len_before, data,
                     } if blob => {
+                        // a blob header behind existing bytes: the file (and its id) was handed to a
+                        // new blob although it had been used before
+                        if *offset > 0 && data.len() == 20 && data[..8] == crate::blobfile::BLOB_MAGIC.to_le_bytes() {
+                            out.push(format!(
+                                "blob header written at offset {} of {}: the id was assigned to a new blob although a file with it existed",
+                                offset,
+                                short_path(&ev.path)
+                            ));
+                        }
                         // appended bytes are never overwritten: no write starts below the end
                         if offset < len_before {
                             out.push(format!(
